@@ -18,7 +18,7 @@ func runtimeGetProfLabel() unsafe.Pointer
 func runtimeSetProfLabel(labels unsafe.Pointer)
 
 func setGLS(t *Thread) { runtimeSetProfLabel(unsafe.Pointer(t)) }
-func getGLS() *Thread   { return (*Thread)(runtimeGetProfLabel()) }
+func getGLS() *Thread  { return (*Thread)(runtimeGetProfLabel()) }
 
 func goid() uint64 {
 	var buf [64]byte
